@@ -701,7 +701,7 @@ class Track(CollectionBase):
             val.start or self.geoshapes[0].start
         )
         _stop = default_to_zulu(
-            val.stop or self.geoshapes[-1].end + timedelta(seconds=1)
+            val.stop or max(x.end for x in self.geoshapes) + timedelta(seconds=1)
         )
         return Track(
             [x for x in self.geoshapes if _start <= x.start and x.end < _stop]
